@@ -252,7 +252,7 @@ def main():
                 continue
             env = dict(ENV, VERIF_REPO=d, VERIF_OUT=os.path.join(d, ".verif-out"))
             t0 = time.time()
-            p = subprocess.run([os.path.join(VERIF, "bin/verifctl"), "c19", "-tier", os.environ.get("MUT_TIER", "quick")], cwd=VERIF, env=env,
+            p = subprocess.run([os.path.join(VERIF, "checks/check"), "C19", os.environ.get("MUT_TIER", "quick")], cwd=VERIF, env=env,
                                stdout=subprocess.PIPE, stderr=subprocess.STDOUT, text=True)
             dt = time.time() - t0
             viol = [l for l in p.stdout.splitlines() if l.startswith("VIOLATION") or l.startswith("C19 violated")]
